@@ -1824,6 +1824,155 @@ theorem index_chunk_size_independent (rs : List Rec) (h : ∀ r ∈ rs, WFRec r)
       = createIndexChunked (C01.readAll C01.Fmt.fasta true m2 (fileOf rs) k2) := by
   rw [index_reader_chunks rs h m1 k1 h1, index_reader_chunks rs h m2 k2 h2]
 
+
+/-! ### any set of intervals: flat buffer + re-wrap -/
+
+theorem writeAt_zeros (pre p : Bytes) (S : Nat) :
+    writeAt (pre ++ List.replicate (p.length + S) 0) pre.length p = pre ++ p ++ List.replicate S 0 := by
+  unfold writeAt
+  rw [List.take_left, ← List.drop_drop, List.drop_left, ← List.replicate_append_replicate,
+    List.drop_left' (by simp)]
+
+theorem fill_pieces (pieces : List Bytes) (pre : Bytes) :
+    fillPieces (pre ++ List.replicate (pieces.map List.length).sum 0) pre.length (pieces.zip (pieces.map List.length))
+      = pre ++ pieces.flatten := by
+  induction pieces generalizing pre with
+  | nil => simp [fillPieces]
+  | cons p r ih =>
+    simp only [List.map_cons, List.sum_cons, List.zip_cons_cons, fillPieces, List.flatten_cons]
+    rw [writeAt_zeros]
+    have := ih (pre ++ p)
+    rw [List.length_append] at this
+    rw [this, List.append_assoc]
+
+/-- the flat-buffer assembly returns the pieces themselves whenever every piece has the length the
+code allots to it (`stop − start`) -/
+theorem assemble_pieces (pieces : List Bytes) (lens : List Nat) (h : pieces.map List.length = lens) :
+    C18.unflatten lens (fillPieces (List.replicate lens.sum 0) 0 (pieces.zip lens)) = pieces := by
+  subst h
+  have := fill_pieces pieces []
+  simp only [List.nil_append, List.length_nil] at this
+  rw [this]
+  exact C18.unflatten_flatten pieces
+
+/-- the explicit row the library builds for the record at a given position -/
+theorem row_at (rs1 rs2 : List Rec) (r : Rec) (hwf : ∀ x ∈ rs1 ++ r :: rs2, WFRec x) :
+    (createIndex (fileOf (rs1 ++ r :: rs2)))[rs1.length]? =
+      some ⟨firstWord r.header, r.seq.length, (fileOf rs1).length + r.header.length + 2,
+            min r.width r.seq.length, min r.width r.seq.length + 1⟩ := by
+  rw [(index_rows _ hwf).2]
+  unfold specIndex
+  rw [specIndexFrom_append, List.map_append, List.getElem?_append_right (by simp [length_specIndexFrom])]
+  simp [length_specIndexFrom, specIndexFrom]
+
+theorem lookup_explicit (rs1 rs2 : List Rec) (r : Rec) (hwf : ∀ x ∈ rs1 ++ r :: rs2, WFRec x)
+    (hdist : ∀ x ∈ rs1, firstWord x.header ≠ firstWord r.header) :
+    lookup (createIndex (fileOf (rs1 ++ r :: rs2))) (firstWord r.header) =
+      some ⟨firstWord r.header, r.seq.length, (fileOf rs1).length + r.header.length + 2,
+            min r.width r.seq.length, min r.width r.seq.length + 1⟩ := by
+  obtain ⟨row, hl, _, _, _⟩ := lookup_finds rs1 rs2 r hwf hdist
+  -- the row found is the row at the record's position
+  have hrow := row_at rs1 rs2 r hwf
+  rw [hl]
+  congr 1
+  -- both are the first row whose name matches; identify through the index structure
+  rw [(index_rows _ hwf).2] at hl hrow
+  unfold specIndex at hl hrow
+  rw [specIndexFrom_append, List.map_append] at hl hrow
+  unfold lookup at hl
+  rw [List.find?_append] at hl
+  have hnone : ((specIndexFrom 0 rs1).map (fun r => { r with name := firstWord r.name })).find?
+      (fun x => firstWord x.name == firstWord r.header) = none := by
+    rw [List.find?_eq_none]
+    intro x hx
+    obtain ⟨x0, hx0, rfl⟩ := List.mem_map.mp hx
+    simp only [firstWord_idem]
+    have key : ∀ (off : Nat) (l : List Rec), x0 ∈ specIndexFrom off l → ∃ y ∈ l, x0.name = y.header := by
+      intro off l
+      induction l generalizing off with
+      | nil => intro hm; simp [specIndexFrom] at hm
+      | cons y l ih =>
+        intro hm
+        simp only [specIndexFrom, List.mem_cons] at hm
+        rcases hm with rfl | hm
+        · exact ⟨y, by simp, rfl⟩
+        · obtain ⟨y', hy', he⟩ := ih _ hm
+          exact ⟨y', by simp [hy'], he⟩
+    obtain ⟨y, hy, he⟩ := key 0 rs1 hx0
+    rw [he]
+    simpa using hdist y hy
+  rw [hnone, Option.none_or] at hl
+  rw [List.getElem?_append_right (by simp [length_specIndexFrom])] at hrow
+  simp only [List.length_map, length_specIndexFrom, Nat.sub_self, specIndexFrom, List.map_cons,
+    List.getElem?_cons_zero, Option.some.injEq] at hrow
+  simp only [specIndexFrom, List.map_cons, List.find?_cons, firstWord_idem, beq_self_eq_true] at hl
+  rw [← hrow]
+  exact (Option.some.inj hl).symm
+
+theorem fileOf_cons (r : Rec) (rs : List Rec) : fileOf (r :: rs) = recBytes r ++ fileOf rs := by simp [fileOf]
+
+/-- one interval by name on a whole file, with the bounds check of `np.delete` -/
+theorem fetch_by_name (rs1 rs2 : List Rec) (r : Rec) (hwf : ∀ x ∈ rs1 ++ r :: rs2, WFRec x)
+    (hdist : ∀ x ∈ rs1, firstWord x.header ≠ firstWord r.header) (a b : Nat) (hab : a ≤ b) (hb : b ≤ r.seq.length) :
+    fetchNamed (fileOf (rs1 ++ r :: rs2)) (createIndex (fileOf (rs1 ++ r :: rs2))) (firstWord r.header, a, b)
+      = some ((r.seq.drop a).take (b - a)) := by
+  unfold fetchNamed
+  simp only
+  rw [lookup_explicit rs1 rs2 r hwf hdist]
+  have hr : WFRec r := hwf r (by simp)
+  obtain ⟨pre, hpre⟩ : ∃ pre, pre = fileOf rs1 ++ (62 :: r.header ++ [10]) := ⟨_, rfl⟩
+  have hplen : pre.length = (fileOf rs1).length + r.header.length + 2 := by rw [hpre]; simp; omega
+  have hlast := wrap_ok' r.width hr.width_pos r.seq hr.seq_ne
+  have hne : wrapBytes r.width r.seq ≠ [] := by intro hc; rw [hc] at hlast; simp at hlast
+  have hsplit : wrapBytes r.width r.seq = (wrapBytes r.width r.seq).dropLast ++ [10] := by
+    have h1 := List.dropLast_concat_getLast hne
+    have h2 : (wrapBytes r.width r.seq).getLast hne = 10 := by
+      rw [List.getLast?_eq_some_getLast hne] at hlast; exact Option.some.inj hlast
+    rw [h2] at h1; exact h1.symm
+  have hfile : fileOf (rs1 ++ r :: rs2) = pre ++ (wrapBytes r.width r.seq).dropLast ++ (10 :: fileOf rs2) := by
+    rw [hpre, fileOf_append, fileOf_cons]
+    unfold recBytes
+    rw (occs := [1]) [hsplit]
+    simp
+  rw [hfile, ← hplen]
+  exact fetch_interval_checked pre r.seq (10 :: fileOf rs2) r.width hr.width_pos hr.seq_ne _ a b hab hb
+    (Or.inr ⟨fileOf rs2, rfl⟩)
+
+/-- **C17.interval_set**: fetching ANY list of in-bounds intervals (any number, any order, repeats,
+several records, names looked up in the built index) from a file of well-formed records with pairwise
+distinct names returns exactly the list of the corresponding substrings — per-interval reads with
+NumPy's bounds check, the flat pre-allocated buffer and the ragged re-wrap included -/
+theorem interval_set (rs : List Rec) (hwf : ∀ r ∈ rs, WFRec r)
+    (hnames : (rs.map (fun r => firstWord r.header)).Pairwise (· ≠ ·))
+    (ivs : List (Rec × Nat × Nat)) (hiv : ∀ q ∈ ivs, q.1 ∈ rs ∧ q.2.1 ≤ q.2.2 ∧ q.2.2 ≤ q.1.seq.length) :
+    getIntervalSequences (fileOf rs) (createIndex (fileOf rs))
+        (ivs.map (fun q => (firstWord q.1.header, q.2.1, q.2.2)))
+      = some (ivs.map (fun q => (q.1.seq.drop q.2.1).take (q.2.2 - q.2.1))) := by
+  unfold getIntervalSequences
+  have hpieces : omap (fetchNamed (fileOf rs) (createIndex (fileOf rs))) (ivs.map (fun q => (firstWord q.1.header, q.2.1, q.2.2)))
+      = some (ivs.map (fun q => (q.1.seq.drop q.2.1).take (q.2.2 - q.2.1))) := by
+    apply omap_map_map
+    intro q hq
+    obtain ⟨hmem, hab, hb⟩ := hiv q hq
+    obtain ⟨rs1, rs2, hsplit⟩ := List.append_of_mem hmem
+    have hd : ∀ x ∈ rs1, firstWord x.header ≠ firstWord q.1.header := by
+      rw [hsplit, List.map_append, List.pairwise_append] at hnames
+      intro x hx
+      exact hnames.2.2 _ (List.mem_map.mpr ⟨x, hx, rfl⟩) _ (by simp)
+    have := fetch_by_name rs1 rs2 q.1 (by rw [← hsplit]; exact hwf) hd q.2.1 q.2.2 hab hb
+    rw [← hsplit] at this
+    exact this
+  rw [hpieces]
+  simp only [Option.some.injEq, List.map_map]
+  apply assemble_pieces
+  rw [List.map_map]
+  apply List.map_congr_left
+  intro q hq
+  obtain ⟨_, hab, hb⟩ := hiv q hq
+  simp only [Function.comp, List.length_take, List.length_drop]
+  omega
+
+
 section Traced
 open Gen.C17
 
@@ -1838,11 +1987,12 @@ theorem fmod_nat (x y : Nat) : Int.fmod (x : Int) (y : Int) = ((x % y : Nat) : I
 theorem cast_pred_add (r c : Nat) (hr : 0 < r) : ((r : Int) + (c : Int) - 1) = ((r + c - 1 : Nat) : Int) := by
   omega
 
-/-- **C17.traced_kernel**: on natural-number arguments the expressions traced from the running
+/-- **C17.traced_kernel**: on natural-number arguments with a positive line width (`0 < lenc`: the
+statement is not claimed where the code would divide by zero) the expressions traced from the running
 `get_interval_sequences` are exactly the quantities the model uses (seek position, read length,
 number of deleted newline positions, start column), and the row length the code claims for an
 interval is `b − a` whenever `lenb = lenc + 1` -/
-theorem traced_kernel (a b rlen offset lenc lenb : Nat) :
+theorem traced_kernel (a b rlen offset lenc lenb : Nat) (_hc : 0 < lenc) :
     trSeek a b rlen offset lenc lenb = ((offset + (a / lenc * lenb + a % lenc) : Nat) : Int) ∧
     (trReadLen a b rlen offset lenc lenb).toNat = (b / lenc * lenb + b % lenc) - (a / lenc * lenb + a % lenc) ∧
     (trNDel a b rlen offset lenc lenb).toNat = b / lenc - a / lenc ∧
@@ -1904,13 +2054,13 @@ theorem traced_bytes_to_read (a b rlen offset lenc lenb : Nat) (hr : 0 < rlen) (
 /-- **C17.fetch_uses_traced**: the model's interval read is the traced arithmetic plugged into the
 file and `np.delete` externals — so `fetch_interval` / `random_access` are statements about what the
 running code computes for these quantities -/
-theorem fetch_uses_traced (file : Bytes) (r : IdxRow) (a b : Nat) :
+theorem fetch_uses_traced (file : Bytes) (r : IdxRow) (a b : Nat) (hc : 0 < r.lenc) :
     fetchInterval file r a b =
       deleteIdx (readAt file (trSeek a b r.rlen r.offset r.lenc r.lenb).toNat
                              (trReadLen a b r.rlen r.offset r.lenc r.lenb).toNat)
         ((List.range (trNDel a b r.rlen r.offset r.lenc r.lenb).toNat).map
           (fun j => r.lenb * (j + 1) - 1 - (trStartMod a b r.rlen r.offset r.lenc r.lenb).toNat)) := by
-  obtain ⟨h1, h2, h3, h4, _⟩ := traced_kernel a b r.rlen r.offset r.lenc r.lenb
+  obtain ⟨h1, h2, h3, h4, _⟩ := traced_kernel a b r.rlen r.offset r.lenc r.lenb hc
   rw [h1, h2, h3, h4]
   rfl
 
@@ -1919,7 +2069,7 @@ theorem fetch_uses_traced (file : Bytes) (r : IdxRow) (a b : Nat) :
 ALL integer arguments, the same seek position, read length, number of deleted newlines and start
 column as the scalar path — so `fetch_uses_traced`, `fetch_interval` and `random_access` hold for
 both code paths — and the row length it allocates is `b − a` -/
-theorem fast_path_same (a b rlen offset lenc lenb : Int) :
+theorem fast_path_same (a b rlen offset lenc lenb : Int) (_hc : 0 < lenc) :
     trFastSeek a b rlen offset lenc lenb = trSeek a b rlen offset lenc lenb ∧
     trFastReadLen a b rlen offset lenc lenb = trReadLen a b rlen offset lenc lenb ∧
     trFastNDel a b rlen offset lenc lenb = trNDel a b rlen offset lenc lenb ∧
@@ -1927,6 +2077,8 @@ theorem fast_path_same (a b rlen offset lenc lenb : Int) :
     trFastRowLen a b rlen offset lenc lenb = b - a := by
   unfold trFastSeek trSeek trFastReadLen trReadLen trFastNDel trNDel trFastStartMod trStartMod trFastRowLen
   refine ⟨by omega, by omega, by omega, by omega, by omega⟩
+
+example : (0 : Nat) < (⟨[97], 7, 3, 5, 6⟩ : IdxRow).lenc := by decide
 
 end Traced
 
